@@ -247,6 +247,8 @@ def _run(ctx, rng, thorough, T):
     ntrees = 6 if not thorough else 60
     for ti in range(ntrees):
         ver = rng.choice(['b1', 'b2'])
+        other_host = (ti % 6 == 3)       # a bundle for a host the signing certificate does not cover
+        base = b'https://static.example.net/base/' if other_host else b'https://example.com/base/'
         root = os.path.join(T, f'tree{ti}')
         os.makedirs(root)
         files = make_tree(rng, root, rng.randrange(1, 8))
@@ -260,7 +262,11 @@ def _run(ctx, rng, thorough, T):
                 open(pth, 'wb').write(('dotfile ' + extra).encode()); files[extra] = ('dotfile ' + extra).encode()
             cwd = root
             cmd[2] = ['.', './', '../' + os.path.basename(root) + '/.'][(ti // 3) % 3]
-        op = f'c20.gen-bundle-dir tree={ti} ver={ver} files={sorted(files)}'
+        # header fields added on the command line, with values that are legal in HTTP but unusual: a horizontal tab, a quoted string,
+        # an empty value, a long one
+        hov = [[], ['-headerOverride', 'X-Note: one\ttwo'], ['-headerOverride', 'X-Quoted: "a, b"', '-headerOverride', 'X-Empty:'], ['-headerOverride', 'X-Long: ' + 'v' * 300]][ti % 4]
+        cmd += hov
+        op = f'c20.gen-bundle-dir tree={ti} ver={ver} files={sorted(files)} override={hov[1:2]}'
         # expected: the model's directory walk (Model/DirWalk.lean; theorems C20.dir_walk_*) on the same tree
         mw = ctx.model([f'c20.walk {hexs(base)} {tree_tokens(files)}'])[0]
         expected, nexpected = {}, 0
@@ -315,6 +321,18 @@ def _run(ctx, rng, thorough, T):
                 nsigned = out6.count(b'[Signed with certificate #0]')
                 bad = out6.count(b'verification error')
                 rec(ctx, 'c20.dump-bundle-verifies-signed tree=%d' % ti, f'exit {rc6} signed={nsigned} errors={bad}', f'exit 0 signed={len(expected)} errors=0')
+        if other_host:
+            # signed by a certificate that covers none of the exchanges: the signature itself verifies, every exchange is reported unsigned
+            kk = keys['ec-sec1-p256']
+            certpem, keypem = wfile(f'oc{ti}.pem', kk['cert']), wfile(f'ok{ti}.pem', kk['key'])
+            rc3, out3, _ = sh([B('gen-certurl'), '-pem', certpem, '-ocsp', wfile(f'oo{ti}.der', b'dummy-ocsp')])
+            chain = wfile(f'ochain{ti}.cbor', out3)
+            signed = os.path.join(T, f'osigned{ti}.wbn')
+            rc5, _, err5 = sh([B('sign-bundle'), 'signatures-section', '-i', outp, '-o', signed, '-certificate', chain, '-privateKey', keypem, '-validityUrl', 'https://example.com/validity'])
+            rec(ctx, 'c20.sign-bundle-covering-nothing tree=%d' % ti, 'exit %d' % rc5, 'exit 0')
+            if rc5 == 0:
+                rc6, out6, _ = sh([B('dump-bundle'), '-i', signed])
+                rec(ctx, 'c20.dump-bundle-signed-covering-nothing tree=%d' % ti, f'exit {rc6} signed={out6.count(b"[Signed with certificate #0]")} errors={out6.count(b"verification error")}', 'exit 0 signed=0 errors=0')
         # ------------------------------------------------------------ C. integrity block
         if ti % 2 == 1:
             kname = rng.choice(['ed25519-pkcs8', 'ed25519-pkcs8-enc'])
